@@ -3,7 +3,8 @@
 cd "$(dirname "$0")/.."
 rc=0
 for p in C01 C02 C03 C04 C05 C06 C07 C08 C09 C10 C11 C12 C13 C14 C15 C16 C17 C18 C19 C20; do
-  out=$(timeout 1500 ./check $p --tier ${VERIF_TIER:-quick} 2>&1); r=$?
+  lim=1500; [ "${VERIF_TIER:-quick}" = thorough ] && lim=5400
+  out=$(timeout $lim ./check $p --tier ${VERIF_TIER:-quick} 2>&1); r=$?
   echo "$out" | grep -E "^$p tier|VIOLATION|KNOWN-FINDING|FLAKY|BUILD-FAILED" | head -4
   [ $r -ne 0 ] && { echo "  -> exit $r"; rc=1; }
 done
